@@ -105,7 +105,7 @@ PLANS = {
         assumptions=['the position clause is evaluated on table-free documents (letters before the marker = letters before the element in V(d)); ids on elements without visible text may or may not yield a marker'],
     ),
     'C07': dict(
-        fams=[('c07', dict(quick=3000, thorough=60000), {})],
+        fams=[('c07', dict(quick=3000, thorough=60000), {}), ('c16', dict(quick=1500, thorough=20000), {})],     # (c16: the same shapes under parameterised decorators, some styled by nesting level)
         mc=[MC_BLOCK, MC_REL],
         nontrivial=lambda rec: len(rec.get('runs', [])) >= 2 and all(r['res']['k'] == 'ok' for r in rec['runs']) and len(rec['runs'][0]['res']['lines']) >= 2,
         rule='each case = one block B in {ul, ol(start in {absent,-100,-12,-9,-1,0,1,5,9,95,98,100,999}, 1..15 items), blockquote, h1..h6, dd} with random flow content (nested blocks included) at width w, plus one auxiliary run per item: the item content as a stand-alone document at w - prefix width; the predicate composes the real sub-renderings with the prefixes; non-trivial = all runs Ok and B has >= 2 lines; distinct by sha256(runs)',
@@ -119,7 +119,7 @@ PLANS = {
         assumptions=['inside side-by-side table cells a reference may be cut by the cell boundary: there only membership in 1..n and uniqueness of complete references are checked, the footnote block is always checked exactly'],
     ),
     'C09': dict(
-        fams=[('c09', dict(quick=3000, thorough=60000), {}), ('c19', dict(quick=1500, thorough=20000), {})],
+        fams=[('c09', dict(quick=3000, thorough=60000), {}), ('c19', dict(quick=1500, thorough=20000), {}), ('c12', dict(quick=4000, thorough=60000), {})],
         mc=[MC_BLOCK],
         nontrivial=lambda rec: bool(rec.get('runs')) and rec['runs'][0]['res']['k'] == 'ok' and any(len(x) > 2 and len(x[2]) >= 2 for ln in rec['runs'][0]['res']['lines'] for x in ln),
         rule='grammar documents with random nestings of em/i/strong/s/del/code/a/img/pre/span/sup inside paragraphs, lists, quotes, headings, table cells; widths 1..100 (half <= 25); rich lines route compared letter by letter with the annotation vector of the DOM ancestors, and with the rich string route; plus the C19 family (documents with sheets, tables included) judged by the colour clause (effective colour of every letter = reference cascade); non-trivial = Ok with some cell carrying >= 2 annotations; distinct by sha256(runs)',
@@ -375,7 +375,7 @@ def run_check(prop, tier, seed, t0, no_mc=False):
         with open(trace_path) as f, open(sp, 'w') as g:
             for i, l in enumerate(f):
                 # table-heavy / mutated giants are slow in the interpreter: only modest cases
-                if i >= n_mc_cases and model_checked < n_model and len(l) < 20000:
+                if i >= n_mc_cases and model_checked < n_model and len(l) < 20000 and '"nomodel"' not in l:
                     g.write(l)
                     model_idx.append(i)
                     model_checked += 1
